@@ -62,7 +62,9 @@ class CTParse:
         )
 
     def __str__(self) -> str:
-        return "{} s={:.3f} p={} sb={} lbl={}".format(self.resolution, self.score, self.production, self.subject, self.labels)
+        # a result without resolution (no time expression found) has no score
+        score = "{:.3f}".format(self.score) if self.score is not None else "None"
+        return "{} s={} p={} sb={} lbl={}".format(self.resolution, score, self.production, self.subject, self.labels)
 
 
 def ctparse(
